@@ -865,6 +865,20 @@ func (x *Exec) evalCall(e *Expr, env *Env) Val {
 			}
 		}
 		bail("prev(%s): not a loop-carried or address-taken local", name)
+	case "calledInIter":
+		// calledInIter(f): f was called since the start of the current loop iteration (loop invariants, step phase)
+		if len(e.Args) != 1 || env.fr == nil || env.fr.curLoop == nil {
+			bail("calledInIter(f) expects a function name inside a loop invariant")
+		}
+		hc, ok := env.fr.headCalls[env.fr.curLoop.Head]
+		if !ok {
+			return specBool("false")
+		}
+		k := "ncalls:" + calleeName(e.Args[0])
+		if env.st.ghost[k] != hc[k] {
+			return specBool("true")
+		}
+		return specBool("false")
 	case "called":
 		// called(f): the function under verification called f (directly) on this path
 		if len(e.Args) != 1 {
